@@ -203,28 +203,34 @@ func setFloors(run *vf.Run) {
 		for _, k := range opKinds {
 			p := "cov/" + b + "/" + k + "/"
 			run.Floor(p+"any", pick(40, 800))
-			run.Floor(p+"two-roots", pick(8, 160))
-			run.Floor(p+"prefix-ids", pick(6, 120))
-			run.Floor(p+"pattern-chars", pick(6, 120))
+			run.Floor(p+"two-roots", pick(5, 100))
+			run.Floor(p+"prefix-ids", pick(5, 100))
+			run.Floor(p+"pattern-chars", pick(5, 100))
 		}
-		// a failure at every store call of DeleteTask (wrapper: Get, Txn, Delete, Delete, commit) on a task that has
-		// a record and at least one checkpoint
+		// a failure at every store call of DeleteTask (wrapper: Get, Txn, Delete, Delete, commit), before and after
+		// the real call, on a task that has a record and at least one checkpoint
 		for i := 1; i <= 5; i++ {
-			run.Floor(fmt.Sprintf("fault_idx/%s/wrap/%d", b, i), pick(2, 40))
+			for _, m := range []string{"before", "after"} {
+				run.Floor(fmt.Sprintf("fault/%s/wrap/%d/%s/fired", b, i, m), pick(2, 40))
+			}
 		}
-		run.Floor("fault_points/"+b+"/wrap", 10) // 5 calls x before/after
+		run.Floor(fmt.Sprintf("fault_idx/%s/wrap/6", b), pick(2, 40)) // control: plan beyond the last call
 		run.Floor("delete_task_full/"+b, pick(15, 300))
 		run.Floor("conc_bursts/"+b, pick(40, 800))
-		run.Floor("conc_bursts_sharing_a_factory/"+b, pick(10, 200))
-		run.Floor("conc_client_checked/"+b, pick(50, 1000))
-		run.Floor("fault_outcome/"+b+"/all-kept", pick(5, 100))
+		run.Floor("conc_bursts_sharing_a_factory/"+b, pick(20, 400))
+		run.Floor("conc_client_checked/"+b, pick(100, 2000))
+		run.Floor("fault_outcome/"+b+"/all-kept", pick(10, 200))
 		run.Floor("fault_outcome/"+b+"/all-gone", pick(2, 40))
+		run.Floor("cases/"+b, pick(400, 8000)*9/10)
 	}
+	run.Floor("cases/etcd-rootpath-empty", pick(30, 600))
 	// MySQL: a failure at each of the 7 driver calls of DeleteTask (SELECT, BEGIN, PREPARE, EXEC, PREPARE, EXEC, COMMIT)
 	for i := 1; i <= 7; i++ {
-		run.Floor(fmt.Sprintf("fault_idx/mysql/sql/%d", i), pick(1, 20))
+		for _, m := range []string{"before", "after"} {
+			run.Floor(fmt.Sprintf("fault/mysql/sql/%d/%s/fired", i, m), pick(1, 20))
+		}
 	}
-	run.Floor("fault_points/mysql/sql", 12)
+	run.Floor("fault_idx/mysql/sql/8", pick(1, 20))
 }
 
 // ---- child ----
